@@ -18,20 +18,36 @@ def run_case(c):
         bhe = MultipleUTube(c["m"], fluid, b, pipe, grout, soil, config=DoubleUTubeConnType.PARALLEL if kind == "dp" else DoubleUTubeConnType.SERIES)
         vf, vp, rc, rp = bhe.u_tube_volumes()
     elif kind == "cx":
-        pipe = Pipe((0, 0), [c["r_ii"], c["r_io"]], [c["r_oi"], c["r_oo"]], 0, 1e-6, [c.get("kp_in", c["kp"]), c.get("kp_out", c["kp"])], 1.54e6)
+        if c.get("via_manager"):
+            # the pipe object as the public interface builds it from the user's numbers
+            from ghedesigner.manager import GHEManager
+            g = GHEManager()
+            g.set_coaxial_pipe(inner_pipe_d_in=2 * c["r_ii"], inner_pipe_d_out=2 * c["r_io"], outer_pipe_d_in=2 * c["r_oi"], outer_pipe_d_out=2 * c["r_oo"], roughness=1e-6,
+                               conductivity_inner=c.get("kp_in", c["kp"]), conductivity_outer=c.get("kp_out", c["kp"]), rho_cp=1.54e6)
+            pipe = g._pipe
+        else:
+            pipe = Pipe((0, 0), [c["r_ii"], c["r_io"]], [c["r_oi"], c["r_oo"]], 0, 1e-6, [c.get("kp_in", c["kp"]), c.get("kp_out", c["kp"])], 1.54e6)
         bhe = CoaxialPipe(c["m"], fluid, b, pipe, grout, soil)
         vf, vp, rc, rp = bhe.concentric_tube_volumes()
+        # the film coefficient at the inner surface of the OUTER pipe (where the fluid of the annulus meets the wall that faces the grout),
+        # straight from pygfunction for the requested numbers
+        import pygfunction as gt
+        h_in_wall, h_out_wall = gt.pipes.convective_heat_transfer_coefficient_concentric_annulus(
+            c["m"], c["r_io"], c["r_oi"], fluid.mu, fluid.rho, fluid.k, fluid.cp, 1e-6)
+        extra = {"h_outer_wall": float(h_out_wall), "h_inner_wall": float(h_in_wall), "R_fp_orig": float(bhe.R_fp)}
     else:
         pipe = Pipe(Pipe.place_pipes(c["s"], c["ro"], 1), c["ri"], c["ro"], c["s"], 1e-6, c["kp"], 1.54e6)
         bhe = SingleUTube(c["m"], fluid, b, pipe, grout, soil)
         eq = bhe.to_single()
         return {"ok": True, "identity": eq is bhe}
+    if kind != "cx":
+        extra = {"R_fp_orig": float(bhe.R_fp)}
     Rb = float(bhe.calc_effective_borehole_resistance())
     eq = bhe.to_single()
     Rb2 = float(eq.calc_effective_borehole_resistance())
     return {"ok": True, "vf": float(vf), "vp": float(vp), "rc": float(rc), "rp": float(rp), "Rb": Rb, "Rb_eq": Rb2,
             "eq_r_in": float(eq.pipe.r_in), "eq_r_out": float(eq.pipe.r_out), "eq_k_pipe": float(eq.pipe.k), "eq_k_grout": float(eq.grout.k),
-            "eq_R_fp": float(eq.R_fp), "eq_R_p": float(eq.R_p), "eq_rb": float(eq.b.r_b), "k_grout_orig": c["kg"]}
+            "eq_R_fp": float(eq.R_fp), "eq_R_p": float(eq.R_p), "eq_rb": float(eq.b.r_b), "k_grout_orig": c["kg"], **extra}
 
 
 if __name__ == "__main__":
